@@ -513,6 +513,129 @@ def hRead : List HStep → Nat → Bytes → Option (List HVal × Bytes)
 
 The byte level of a PSBT is rust-bitcoin's (`Psbt::serialize`/`deserialize`, opaque leaf above).
 What `StreamedPSBT::consensus_decode_from_finite_reader` adds is modelled on the parsed PSBT. -/
+
+
+/-! ### The code templates of `bolt-derive/src/lib.rs`, as step lists (round 9)
+
+`#[derive(SerBolt)]` expands, per message struct, to `as_vec` / typed `from_vec`; `#[derive(ReadMessage)]` walks the
+variants of `enum Message` and expands to the dispatch `read_message`.  `translate/x_boltderive.py` parses every statement
+of the `quote!` templates and of the variant walk into the descriptions below (`Gen/BoltDerive.lean`);
+`Props/C19Fn.lean` proves `asVec`, `fromVecTyped` and `dispatch` equal to their interpretation, so a change of the macro
+(statement order, width of the type prefix, a dropped type or trailing-bytes check, another arm order, `Unknown` no
+longer skipped) changes the generated description and reaches a proof obligation. -/
+
+/-- statements of the generated `SerBolt::as_vec` -/
+inductive SStep
+  /-- `let message_type = Self::TYPE;` -/
+  | typeConst
+  /-- `let mut buf = message_type.to_be_bytes().to_vec();` with `TYPE` of `width` bytes -/
+  | bufTypeBe (width : Nat)
+  /-- `let mut val_buf = to_vec(&self).expect("serialize");` -/
+  | valBufExpect
+  /-- `buf.append(&mut val_buf);` -/
+  | appendVal
+  /-- tail expression `buf` -/
+  | retBuf
+deriving DecidableEq, Repr
+
+structure SState where
+  ty : Option Nat := none
+  buf : Option Bytes := none
+  val : Option Bytes := none
+
+/-- run the statements of `as_vec` for the struct at entry `e` on value `v`; `none` = a variable used before it is
+    bound, or no tail expression (cannot be compiled) -/
+def interpS {α : Type} (L : LeafCodec α) (e : Entry) (v : Val α) : List SStep → SState → Option Bytes
+  | [], _ => none
+  | .typeConst :: ss, st => interpS L e v ss { st with ty := some e.id }
+  | .bufTypeBe w :: ss, st =>
+    match st.ty with
+    | some t => interpS L e v ss { st with buf := some (beBytes w t) }
+    | none => none
+  | .valBufExpect :: ss, st => interpS L e v ss { st with val := some (enc L e.ty v) }
+  | .appendVal :: ss, st =>
+    match st.buf, st.val with
+    | some b, some x => interpS L e v ss { st with buf := some (b ++ x), val := some [] }
+    | _, _ => none
+  | .retBuf :: _, st => st.buf
+
+/-- statements of the generated typed `DeBolt::from_vec` -/
+inductive DStep
+  /-- `let mut cursor = Cursor::new(&ser);` -/
+  | cursorNew
+  /-- `let message_type = cursor.read_u16_be()?;` (`width` bytes, big endian; EOF is the `?` error) -/
+  | readTypeBe (width : Nat)
+  /-- `if message_type != Self::TYPE { return Err(UnexpectedType) }` -/
+  | expectType
+  /-- `let res = Decodable::consensus_decode(&mut cursor)?;` -/
+  | decodeBody
+  /-- `if cursor.position() != ser.len() { return Err(TrailingBytes(count, TYPE)) }`; `underflows`: the count is written
+      `position - len`, which underflows whenever the branch is taken (panic in overflow-checked builds) -/
+  | expectEnd (underflows : Bool)
+  /-- `Ok(res)` -/
+  | retOk
+deriving DecidableEq, Repr
+
+structure DState (α : Type) where
+  cur : Option Bytes := none
+  ty : Option Nat := none
+  res : Option (Val α) := none
+
+def interpD {α : Type} (L : LeafCodec α) (e : Entry) (bs : Bytes) : List DStep → DState α → TypedRes α
+  | [], _ => .err
+  | .cursorNew :: ds, st => interpD L e bs ds { st with cur := some bs }
+  | .readTypeBe w :: ds, st =>
+    match st.cur with
+    | none => .err
+    | some c =>
+      match splitAt? w c with
+      | none => .err
+      | some (a, rest) => interpD L e bs ds { st with cur := some rest, ty := some (beVal a) }
+  | .expectType :: ds, st =>
+    match st.ty with
+    | none => .err
+    | some t => if t ≠ e.id then .err else interpD L e bs ds st
+  | .decodeBody :: ds, st =>
+    match st.cur with
+    | none => .err
+    | some c =>
+      match dec L e.ty c with
+      | none => .err
+      | some (v, rest) => interpD L e bs ds { st with cur := some rest, res := some v }
+  | .expectEnd u :: ds, st =>
+    match st.cur with
+    | none => .err
+    | some c => if c.isEmpty then interpD L e bs ds st else (if u then .panic else .err)
+  | .retOk :: _, st =>
+    match st.res with
+    | some v => .ok v
+    | none => .err
+
+/-- what `#[derive(ReadMessage)]` does with the variants of `enum Message` -/
+structure ReadMessageWalk where
+  /-- `if v.ident == "Unknown" { continue; }` -/
+  skipsVariantNamedUnknown : Bool
+  /-- `vs.push(vident); ts.push(f);` inside `for v in variants`, no reordering afterwards; the template expands the
+      arms `#(#vs::TYPE => …),*` in that order (a Rust `match` takes the first arm that matches) -/
+  armsInDeclarationOrder : Bool
+  /-- the arm pattern is the struct's `TYPE` constant -/
+  armKeyIsTypeConst : Bool
+  /-- `extract_single_type`: exactly one field per variant, whose type names the struct -/
+  oneFieldPerVariant : Bool
+  /-- the arm body is `Message::V(Decodable::consensus_decode(reader)?)` -/
+  armDecodesBody : Bool
+  /-- `_ => Message::Unknown(Unknown { message_type })` -/
+  defaultIsUnknown : Bool
+deriving DecidableEq, Repr
+
+/-- the arms the walk generates from the variants of the enum (in declaration order, `Unknown` skipped) and the index
+    (among the arms) of the arm a Rust `match` on the type takes; `none` = the default arm -/
+def dispatchW (w : ReadMessageWalk) (variants : List Entry) (id : Nat) : Option Nat :=
+  let arms := if w.skipsVariantNamedUnknown then variants.filter (fun e => e.name != "Unknown") else variants
+  let arms := if w.armsInDeclarationOrder then arms else arms.reverse
+  if w.armKeyIsTypeConst && w.oneFieldPerVariant && w.armDecodesBody && w.defaultIsUnknown then
+    (arms.findIdx? (fun e => e.id == id))
+  else none
 namespace Streamed
 
 structure TxOut where
